@@ -109,6 +109,11 @@ type World struct {
 	// Proposer index override (-1 => rotate)
 	ProposerIdx int
 	LastResp    *abci.ResponseFinalizeBlock
+	// Mirrors are replicas that receive exactly the same blocks and authority messages. Any
+	// difference in app hash or per-tx (code, codespace, gas, data) is appended to Diverged.
+	Mirrors          []*World
+	MirrorConcurrent bool
+	Diverged         []string
 }
 
 // DefaultConsensusParams mirrors the repository's testing params.
@@ -200,8 +205,24 @@ func NewWorld(cfg Config) *World {
 	return w
 }
 
+// AddMirror creates a replica from the same configuration (fresh home dir) and attaches it. Must be
+// called before any block other than the one NewWorld itself runs.
+func (w *World) AddMirror() *World {
+	cfg := w.Cfg
+	cfg.HomeDir = ""
+	m := NewWorld(cfg)
+	if string(m.LastAppHash) != string(w.LastAppHash) {
+		w.Diverged = append(w.Diverged, fmt.Sprintf("replica differs right after genesis: %X vs %X", w.LastAppHash, m.LastAppHash))
+	}
+	w.Mirrors = append(w.Mirrors, m)
+	return m
+}
+
 // Close removes the home dir.
 func (w *World) Close() {
+	for _, m := range w.Mirrors {
+		m.Close()
+	}
 	if w.ownDir {
 		os.RemoveAll(w.Dir)
 	}
@@ -329,6 +350,11 @@ func (w *World) Authority(msg sdk.Msg) (res *sdk.Result, err error) {
 	res, err = h(ctx, msg)
 	if err == nil {
 		write()
+	}
+	for i, m := range w.Mirrors {
+		if _, merr := m.Authority(msg); (merr == nil) != (err == nil) {
+			w.Diverged = append(w.Diverged, fmt.Sprintf("authority msg %T: primary err=%v, replica %d err=%v", msg, err, i+1, merr))
+		}
 	}
 	return res, err
 }
@@ -458,8 +484,57 @@ func (w *World) Block(txs [][]byte, dt time.Duration) (*abci.ResponseFinalizeBlo
 	return w.Exec(w.BlockReq(txs, dt))
 }
 
-// Exec runs a prepared request.
+// Exec runs a prepared request on this world and on its mirrors, and compares the outcomes.
 func (w *World) Exec(req *abci.RequestFinalizeBlock) (resp *abci.ResponseFinalizeBlock, err error) {
+	if len(w.Mirrors) == 0 {
+		return w.execOne(req)
+	}
+	type out struct {
+		resp *abci.ResponseFinalizeBlock
+		err  error
+	}
+	outs := make([]out, len(w.Mirrors))
+	run := func(i int, m *World) { r, e := m.execOne(req); outs[i] = out{r, e} }
+	if w.MirrorConcurrent {
+		var wg sync.WaitGroup
+		for i, m := range w.Mirrors {
+			wg.Add(1)
+			go func(i int, m *World) { defer wg.Done(); run(i, m) }(i, m)
+		}
+		resp, err = w.execOne(req)
+		wg.Wait()
+	} else {
+		resp, err = w.execOne(req)
+		for i, m := range w.Mirrors {
+			run(i, m)
+		}
+	}
+	for i, o := range outs {
+		switch {
+		case (o.err == nil) != (err == nil):
+			w.Diverged = append(w.Diverged, fmt.Sprintf("block %d: primary err=%v, replica %d err=%v", req.Height, err, i+1, o.err))
+		case err != nil:
+		default:
+			if string(o.resp.AppHash) != string(resp.AppHash) {
+				w.Diverged = append(w.Diverged, fmt.Sprintf("block %d: app hash %X vs replica %d %X", req.Height, resp.AppHash, i+1, o.resp.AppHash))
+			}
+			if len(o.resp.TxResults) != len(resp.TxResults) {
+				w.Diverged = append(w.Diverged, fmt.Sprintf("block %d: %d tx results vs replica %d %d", req.Height, len(resp.TxResults), i+1, len(o.resp.TxResults)))
+				continue
+			}
+			for j, a := range resp.TxResults {
+				b := o.resp.TxResults[j]
+				if a.Code != b.Code || a.Codespace != b.Codespace || a.GasWanted != b.GasWanted || a.GasUsed != b.GasUsed || string(a.Data) != string(b.Data) {
+					w.Diverged = append(w.Diverged, fmt.Sprintf("block %d tx %d: (%s/%d gas %d/%d data %X) vs replica %d (%s/%d gas %d/%d data %X)", req.Height, j,
+						a.Codespace, a.Code, a.GasWanted, a.GasUsed, a.Data, i+1, b.Codespace, b.Code, b.GasWanted, b.GasUsed, b.Data))
+				}
+			}
+		}
+	}
+	return resp, err
+}
+
+func (w *World) execOne(req *abci.RequestFinalizeBlock) (resp *abci.ResponseFinalizeBlock, err error) {
 	func() {
 		defer func() {
 			if r := recover(); r != nil {
